@@ -311,6 +311,13 @@ func (p *dlPeer) RequestNodeData(kind types.TrieKind, hashes []common.Hash) erro
 	return nil
 }
 
+// watchdog bounds one production sync in wall time (normal ones take milliseconds). It never
+// produces a verdict: a firing makes the case inconclusive; after three firings in one child the
+// remaining cases are not attempted (inconclusive as well) so that a hanging build fails fast.
+const watchdog = 45 * time.Second
+
+var watchdogFired int
+
 type dlOutcome struct {
 	Err      string `json:"err"`
 	TimedOut bool   `json:"timedOut,omitempty"`
@@ -339,8 +346,9 @@ func runDownload(c *kit.Ctx, r *rand.Rand, w *world, t *target, kind types.TrieK
 	}()
 	select {
 	case err = <-done:
-	case <-time.After(150 * time.Second): // watchdog only: a firing makes the case inconclusive
+	case <-time.After(watchdog): // watchdog only: a firing makes the case inconclusive
 		out.TimedOut = true
+		watchdogFired++
 		e.d.Cancel()
 		err = <-done
 	}
@@ -378,6 +386,11 @@ func runDLCase(c *kit.Ctx, id string, kind string) {
 	r := c.Rand(id)
 	alias := kind == "alias"
 	c.Begin(id, scenInput{Kind: kind, Alias: alias})
+	if watchdogFired >= 3 {
+		stuckSeen++
+		c.EndInconclusive("skipped: the production sync already hung three times in this child")
+		return
+	}
 	var w *world
 	var err error
 	switch kind {
@@ -532,6 +545,7 @@ func runDLCase(c *kit.Ctx, id string, kind string) {
 	}
 	c.Sample(map[string]interface{}{"world": describe(w), "profiles": allProfiles, "outcomes": outcomes})
 	if inconclusive != "" && !v.bad {
+		stuckSeen++
 		c.EndInconclusive(inconclusive)
 		return
 	}
